@@ -105,12 +105,12 @@ def r1_param_mutators(ctx):
     for (mod, qn, p), ws in sorted(found.items()):
         name = qn.split(".")[-1]
         if name in EXPLICIT_MUTATOR_NAMES:
-            ctx.ob(ws.where, f"{qn}({p}): explicit assignment API may write into its argument", True, ws.stmt)
+            ctx.ob(ws.where, f"{qn}({p}): explicit assignment API may write into its argument", True, ws.stmt, definite=True)
             continue
         ok = (mod, qn, p) in ALLOWED_PARAM_MUTATORS
         ctx.ob(ws.where, f"{mod}:{qn} must not modify its argument `{p}` in place", ok,
                f"[{ws.kind}] `{ws.stmt}`" + (f" via {ws.via}" if ws.via else "") + ("" if ok else " -- the written memory is (a view/column of) the caller's object on some path"),
-               key=f"C20-R1|{mod}|{qn}|{p}")
+               key=f"C20-R1|{mod}|{qn}|{p}", definite=True)
     gone = [k for k in ALLOWED_PARAM_MUTATORS if k not in found]
     if gone:
         ctx.note("allow-listed mutators no longer present (fine): " + "; ".join(f"{m}:{q}({p})" for m, q, p in gone))
@@ -164,7 +164,7 @@ def r2_private_mutator_call_sites(ctx):
             ctx.need(pv is not None, f"{fi.where}: argument of {qn} not located")
             owned = not any(isinstance(t, tuple) for t in pv)
             ctx.ob(f"{fi.module.relpath}:{c.lineno} {fi.qualname}", f"{qn} (writes into its argument) is handed memory the caller owns: `{u(c)[:80]}`", owned,
-                   f"argument provenance {sorted(map(str, pv))}", key=f"C20-R2|{fi.module.name}|{fi.qualname}|{qn}")
+                   f"argument provenance {sorted(map(str, pv))}", key=f"C20-R2|{fi.module.name}|{fi.qualname}|{qn}", definite=True)
     # genotype text: the matrix buffers hand a fancy-indexed copy to the (mutating) row encoders
     vb = ctx.index.func("bionumpy.io.vcf_buffers", "VCFMatrixBuffer._get_field_by_number")
     env = local_env(vb.node)
@@ -175,14 +175,14 @@ def r2_private_mutator_call_sites(ctx):
         src = env.get(u(arg)) if isinstance(arg, ast.Name) else arg
         ok = src is not None and isinstance(src, ast.Call) and u(src.func) == "self._buffer_extractor.get_fixed_length_field"
         ctx.ob(vb.where, "genotype rows given to the row encoder come from get_fixed_length_field (a fancy-indexed copy)", ok, u(src) if src is not None else u(arg),
-               key="C20-R2|genotype-source")
+               key="C20-R2|genotype-source", definite=True)
     gf = ctx.index.func("bionumpy.io.file_buffers", "TextBufferExtractor.get_fixed_length_field")
     rets = [n for n in body_walk(gf.node) if isinstance(n, ast.Return)]
     genv = local_env(gf.node)
     ok = len(rets) == 1 and isinstance(rets[0].value, ast.Subscript) and u(rets[0].value.value) == "self._data" and \
         isinstance(genv.get(u(rets[0].value.slice)), ast.BinOp) and "np.arange(" in u(genv.get(u(rets[0].value.slice)))
     ctx.ob(gf.where, "get_fixed_length_field indexes the buffer with an integer index array (advanced indexing: always a copy)", ok, u(rets[0].value) if rets else "",
-           key="C20-R2|fixed-length-copy")
+           key="C20-R2|fixed-length-copy", definite=True)
 
 
 IO_TABLE_MODULES = ("bionumpy.io.file_buffers", "bionumpy.io.delimited_buffers", "bionumpy.io.one_line_buffer", "bionumpy.io.multiline_buffer", "bionumpy.io.fastq_buffer",
@@ -209,7 +209,7 @@ def r3_self_array_writes(ctx, modules=None, floor=None):
             name = key[1].split(".")[-1]
             ok = (key[0], key[1], ws.target[1]) in ALLOWED_SELF_WRITES
             ctx.ob(ws.where, f"{key[0]}:{key[1]} may not write in place into the receiver's array `self.{ws.target[1]}` (only explicit mutators and initialisers do)",
-                   ok, f"[{ws.kind}] `{ws.stmt}`" + (f" via {ws.via}" if ws.via else ""), key=f"C20-R3|{key[0]}|{key[1]}|{ws.target[1]}")
+                   ok, f"[{ws.kind}] `{ws.stmt}`" + (f" via {ws.via}" if ws.via else ""), key=f"C20-R3|{key[0]}|{key[1]}|{ws.target[1]}", definite=True)
     ctx.floor("in-place writes into receiver arrays", n, (10 if modules is None else 2) if floor is None else floor)
 
 
@@ -221,13 +221,13 @@ def r4_cow_views_and_dead_writers(ctx):
     ok = len(cons) == 1 and len(cons[0].args) == 2 and u(cons[0].args[0]) == "self._data" and isinstance(cons[0].args[1], ast.Call) and \
         u(cons[0].args[1].func) in ("RaggedView2", "RaggedView")
     ctx.ob(ex.where, "field text handed to column parsers is a copy-on-write view of the file buffer (RaggedView shape), so parser writes never reach the buffer",
-           ok, u(cons[0]) if cons else "", key="C20-R4|extract-data-cow")
+           ok, u(cons[0]) if cons else "", key="C20-R4|extract-data-cow", definite=True)
     users = {}
     for qn in ("TextBufferExtractor.get_field_by_number", "TextThroughputExtractor.get_fields_by_range"):
         f = ix.func("bionumpy.io.file_buffers", qn)
         rets = [n for n in body_walk(f.node) if isinstance(n, ast.Return)]
         ok = bool(rets) and all(isinstance(r.value, ast.Call) and u(r.value.func) == "self._extract_data" for r in rets)
-        ctx.ob(f.where, f"{qn} returns only such views", ok, "; ".join(u(r.value) for r in rets), key=f"C20-R4|{qn}")
+        ctx.ob(f.where, f"{qn} returns only such views", ok, "; ".join(u(r.value) for r in rets), key=f"C20-R4|{qn}", definite=True)
     # dead writers
     for mod, qn in (("bionumpy.io.file_buffers", "FileBuffer._move_2d_array_to_intervals"), ("bionumpy.arithmetics.bedgraph", "memory_efficient_pileup")):
         if not ix.has_func(mod, qn):
@@ -244,13 +244,13 @@ def r4_cow_views_and_dead_writers(ctx):
                 if attr == name:
                     callers.append(f"{mi.relpath} imports {name}")
         ctx.ob(f"{mod}:{qn}", f"{name} (writes into its input / the raw buffer) has no caller and is not imported anywhere", not callers, "; ".join(callers[:4]),
-               key=f"C20-R4|dead|{name}")
+               key=f"C20-R4|dead|{name}", definite=True)
     # _parse_split_fields: copy fallback
     ps = ix.func("bionumpy.io.delimited_buffers", "DelimitedBuffer._parse_split_fields")
     trys = [n for n in body_walk(ps.node) if isinstance(n, ast.Try)]
     ok = len(trys) == 1 and any(isinstance(h.type, ast.Name) and h.type.id == "ValueError" for h in trys[0].handlers) and \
         any(isinstance(x, ast.Assign) and u(x.targets[0]) == ps.params[1] and sym.canon(x.value) == f"{ps.params[1]}.copy()" for h in trys[0].handlers for x in h.body)
-    ctx.ob(ps.where, "the separator store falls back to a private copy when the view is read-only", ok, "", key="C20-R4|copy-fallback")
+    ctx.ob(ps.where, "the separator store falls back to a private copy when the view is read-only", ok, "", key="C20-R4|copy-fallback", definite=True)
 
 
 def r5_table_derivations(ctx):
@@ -278,7 +278,7 @@ def r5_table_derivations(ctx):
         bad = [(params[i], ws) for i, ws in s.mutates.items() if not (i == 0 and params[i] in ("cls",))]
         bad = [(p, ws) for p, ws in bad if not (p == "self" and ws.target[0] == "S" and ws.kind == "container-mutation")]
         ctx.ob(fi.where, f"{qn} leaves its arguments untouched (it builds new objects)", not bad,
-               "; ".join(f"`{p}` written by [{ws.kind}] `{ws.stmt}`" + (f" via {ws.via}" if ws.via else "") for p, ws in bad), key=f"C20-R5|{mod}|{qn}")
+               "; ".join(f"`{p}` written by [{ws.kind}] `{ws.stmt}`" + (f" via {ws.via}" if ws.via else "") for p, ws in bad), key=f"C20-R5|{mod}|{qn}", definite=True)
     ctx.floor("named public derivations checked", n, 20)
 
 
@@ -322,7 +322,7 @@ def r6_memoised_results(ctx, modules=None):
         n += 1
         rets = [r.value for r in body_walk(fi.node) if isinstance(r, ast.Return) and r.value is not None]
         if rets and all(_immutable_result(r, fi) for r in rets):
-            ctx.ob(fi.where, f"memoised `{fi.qualname}` returns an immutable value", True, "; ".join(u(r) for r in rets), key=f"C20-R6|immutable|{fi.module.name}|{fi.qualname}")
+            ctx.ob(fi.where, f"memoised `{fi.qualname}` returns an immutable value", True, "; ".join(u(r) for r in rets), key=f"C20-R6|immutable|{fi.module.name}|{fi.qualname}", definite=True)
         else:
             mutable.append(fi)
     names = {fi.qualname.split(".")[-1] for fi in mutable}
@@ -379,7 +379,7 @@ def r6_memoised_results(ctx, modules=None):
             elif isinstance(up, ast.Subscript) and up.value is hit and isinstance(up.ctx, ast.Store):
                 escapes.append(f"{where}: written in place")
         ctx.ob(fi.where, f"memoised `{fi.qualname}` returns a mutable object: its result is only ever used as an operand (never returned further, stored, or written in place), "
-               "so no caller can change what another caller gets", not escapes, "; ".join(escapes[:4]) or f"{uses} uses, all operands", key=f"C20-R6|shared-result|{fi.module.name}|{fi.qualname}")
+               "so no caller can change what another caller gets", not escapes, "; ".join(escapes[:4]) or f"{uses} uses, all operands", key=f"C20-R6|shared-result|{fi.module.name}|{fi.qualname}", definite=True)
     ctx.floor("memoised functions examined", n, 7 if modules is None else 0)
 
 
@@ -413,9 +413,9 @@ def r9_mutable_defaults(ctx, modules=None):
                 elif isinstance(x, ast.Return) and x.value is not None and u(x.value) == name:
                     escapes.append("returned")
             ctx.ob(fi.where, f"the mutable default of `{name}` ({u(d)[:30]}) is only read: it is not stored on the object, returned or written into (it would be shared by every "
-                   "call that relies on the default)", not escapes, "; ".join(escapes[:3]), key=f"C20-R9|mutable-default|{fi.module.name}|{fi.qualname}|{name}")
+                   "call that relies on the default)", not escapes, "; ".join(escapes[:3]), key=f"C20-R9|mutable-default|{fi.module.name}|{fi.qualname}|{name}", definite=True)
     ctx.count("mutable default arguments examined", n)
-    ctx.ob("bionumpy", f"{n} mutable default arguments examined", True, "", key="C20-R9|scan")
+    ctx.ob("bionumpy", f"{n} mutable default arguments examined", True, "", key="C20-R9|scan", definite=True)
 
 
 
